@@ -10,7 +10,7 @@ from auditsim import repo as R
 from auditsim import world as W
 from auditsim import gen as G
 from auditsim.driver import AuditRun
-from auditsim.log import Outcome, same
+from auditsim.log import Outcome, same, tight
 
 PROP = "C10"
 TIERS = {
@@ -49,6 +49,9 @@ def generate(rng, tier):
     tally_ok = (case["world"]["audit_type"] != W.POLLING and
                 all(c["choice_function"] in (W.PLURALITY, W.APPROVAL) for c in case["world"]["contests"].values()))
     case["margins_via_tally"] = bool(tally_ok and rng.chance(0.4))
+    if case["margins_via_tally"]:
+        for r, rnd in enumerate(case["rounds"]):
+            rnd["retally"] = bool(r > 0 and rng.chance(0.4))
     if len(case["rounds"]) < 2:
         r0 = case["rounds"][0]
         r1 = copy.deepcopy(r0)
@@ -102,7 +105,7 @@ class Oracle:
             if k not in before:
                 continue
             d0 = before[k][0]
-            if len(d) < len(d0) or any(not same(a, b) for a, b in zip(d0, d)):
+            if len(d) < len(d0) or any(not tight(a, b) for a, b in zip(d0, d)):
                 out.violate("C10.b", f"{variant}/{run.world['audit_type']}",
                             f"data of assertion {k} in round {r} ({variant}) {d[:10]} do not begin with the "
                             f"previous round's {d0[:10]}")
@@ -125,7 +128,7 @@ class Oracle:
             # a NaN "risk" confirms nothing: it is as bad as 1 (its being NaN at all is C11's business)
             pe = 1.0 if p != p else p
             pe0 = 1.0 if p0 != p0 else p0
-            if not (pe <= pe0):
+            if not (pe <= pe0 * (1 + 1e-12) + 1e-300):
                 out.violate("C10.c", f"{variant}/{run.world['contests'][k[0]]['test']}" + ("/became-nan" if p != p else ""),
                             f"measured risk of assertion {k} rose from {p0!r} to {p!r} in round {r} ({variant})")
         if r not in run.rebuilt:
